@@ -123,7 +123,10 @@ def rule_snapshot(ctx):
     for s in ctx.facts.callers('std::fs::rename'):
         if s.body.nid.startswith('collector::rrdp::'):
             n += 1
-            ctx.check(s.body.nid.endswith('RepositoryUpdate::snapshot_update'), 'K3', 'rrdp-rename<-%s' % s.body.nid, 'rename in snapshot_update', 'rename in %s' % s.body.nid, loc=s.loc())
+            from lib.rules import effective_owners
+            owners = effective_owners(ctx, s.body.nid)
+            okr = all(o.endswith('RepositoryUpdate::snapshot_update') for o in owners)
+            ctx.check(okr, 'K3', 'rrdp-rename<-%s' % (owners[0] if okr else s.body.nid), 'rename in snapshot_update', 'rename in %s' % s.body.nid, loc=s.loc())
     ctx.floor('K3', 'rename sites in collector::rrdp', n, 1)
 
 
